@@ -99,6 +99,7 @@ type fioProg struct {
 	withID   bool
 	info     [3]string // Title, Author, custom value ("" = unset)
 	infoDate bool
+	catVersion pdf.Version // Catalog.Version (0 = unset); "cv<n>" in the header of the program text
 	infoX    string // full Info specification (fio_info.go); overrides info/infoDate when non-empty
 	layout   string
 	ops      []fioOp
@@ -147,6 +148,9 @@ func (p *fioProg) String() string {
 		hexWire([]byte(p.info[0])), hexWire([]byte(p.info[1])), hexWire([]byte(p.info[2])), b2i(p.infoDate), hexWire([]byte(p.layout)))
 	if p.infoX != "" {
 		sb.WriteString("~" + p.infoX)
+	}
+	if p.catVersion != 0 {
+		fmt.Fprintf(&sb, "~cv%d", int(p.catVersion))
 	}
 	if p.cont {
 		sb.WriteString("|K")
@@ -235,15 +239,20 @@ func fioParseProg(s string) (*fioProg, error) {
 	wireNilDict = true
 	parts := strings.Split(s, "|")
 	h := strings.Split(parts[0], "~")
-	if len(h) != 11 && len(h) != 12 {
+	if len(h) < 11 || len(h) > 13 {
 		return nil, errors.New("bad program header")
 	}
 	atoi := func(x string) int { n, _ := strconv.Atoi(x); return n }
 	p := &fioProg{version: pdf.Version(atoi(h[0])), human: h[1] == "1", seekable: h[2] == "1", encrypt: h[3] == "1", userPw: h[4] == "1", withID: h[5] == "1", infoDate: h[9] == "1"}
 	p.info = [3]string{string(fioUnhex(h[6])), string(fioUnhex(h[7])), string(fioUnhex(h[8]))}
 	p.layout = string(fioUnhex(h[10]))
-	if len(h) == 12 {
-		p.infoX = h[11]
+	for _, extra := range h[11:] {
+		if strings.HasPrefix(extra, "cv") {
+			n, _ := strconv.Atoi(extra[2:])
+			p.catVersion = pdf.Version(n)
+		} else {
+			p.infoX = extra
+		}
 	}
 	for _, item := range parts[1:] {
 		if item == "K" {
@@ -501,6 +510,9 @@ func fioExec(p *fioProg, gen func(st *fioExecState) bool) *fioResult {
 	}
 	if p.infoX != "" {
 		info = fioInfoFromSpec(p.infoX)
+	}
+	if p.catVersion != 0 {
+		w.GetMeta().Catalog.Version = p.catVersion
 	}
 	w.GetMeta().Info = info
 	res.wantInfo = fioCloneInfo(info)
@@ -1359,8 +1371,14 @@ func oracleFileRoundTrip(res *fioResult) (v []fioViolation) {
 	}
 	p := res.prog
 	meta := rd.GetMeta()
-	if meta.Version != p.version {
-		v = append(v, fioViolation{"version", fmt.Sprintf("version %v read back as %v", p.version, meta.Version)})
+	// the effective version is the larger of the header version and the catalog's /Version; a
+	// catalog entry below the header version does not lower it
+	wantVersion := max(p.version, p.catVersion)
+	if meta.Version != wantVersion {
+		v = append(v, fioViolation{"version", fmt.Sprintf("header version %v, Catalog.Version %v: MetaInfo.Version read back as %v, want %v", p.version, p.catVersion, meta.Version, wantVersion)})
+	}
+	if meta.Catalog != nil && meta.Catalog.Version != p.catVersion {
+		v = append(v, fioViolation{"version", fmt.Sprintf("Catalog.Version %v (header %v) read back as %v", p.catVersion, p.version, meta.Catalog.Version)})
 	}
 	if len(meta.ID) != len(res.id) {
 		v = append(v, fioViolation{"id", fmt.Sprintf("ID %x read back as %x", res.id, meta.ID)})
@@ -2087,6 +2105,12 @@ func fioFeaturePrograms() []*fioProg {
 			mk("writecompressed-error-residue", true, alloc, alloc, alloc, put(2, pdf.Integer(1)),
 				fioOp{kind: 'Z', refs: []pdf.Reference{ref(3), ref(2)}, objs: []pdf.Object{pdf.Integer(1), pdf.Integer(2)}, mustFail: true},
 				put(3, pdf.Integer(3)), put(4, pdf.Name("C")))
+			// names with '#' followed by two hex digits, as keys and as values: formatName must
+			// escape the '#', or "A#42" is read back as "AB"
+			hashes := pdf.Dict{"A#42": pdf.Name("#FF8000"), "K": pdf.Array{pdf.Name("x#20y"), pdf.Name("#"), pdf.Name("a#b#4")}, "#23": pdf.Integer(1)}
+			mk("name-hash-not-escaped", false, alloc, alloc, alloc, alloc, put(2, hashes), put(3, pdf.Name("A#42")),
+				fioOp{kind: 'O', ref: ref(5), dict: pdf.Dict{"S#2F": pdf.Name("v#00")}, userLen: -1, same: -1}, fioOp{kind: 'W', data: []byte("abc")}, fioOp{kind: 'C'},
+				fioOp{kind: 'Z', refs: []pdf.Reference{ref(4)}, objs: []pdf.Object{pdf.Dict{"Z#5A": pdf.Name("#41#42"), "N": pdf.Name("A#42")}}})
 			mk("writecompressed-container-takes-member-number", false,
 				fioOp{kind: 'Z', refs: []pdf.Reference{ref(2), ref(3)}, objs: []pdf.Object{pdf.Dict{"Own": pdf.Integer(0)}, pdf.Integer(2)}},
 				alloc, put(5, pdf.Name("after")))
